@@ -227,7 +227,7 @@ rotate(Array<T, 3> const& dir, Array<T, 3> const& rot)
 
     // Transform direction vector into theta, phi so we can use it as a
     // rotation matrix
-    T sintheta = std::sqrt(1 - ipow<2>(rot[Z]));
+    T sintheta = std::sqrt(clamp_to_nonneg(1 - ipow<2>(rot[Z])));
     T cosphi;
     T sinphi;
 
@@ -242,8 +242,18 @@ rotate(Array<T, 3> const& dir, Array<T, 3> const& rot)
     else if (sintheta > 0)
     {
         // Avoid catastrophic roundoff error by normalizing x/y components
-        cosphi = rot[X] / std::sqrt(ipow<2>(rot[X]) + ipow<2>(rot[Y]));
-        sinphi = std::sqrt(1 - ipow<2>(cosphi));
+        T const hyp = std::sqrt(ipow<2>(rot[X]) + ipow<2>(rot[Y]));
+        if (hyp > 0)
+        {
+            cosphi = rot[X] / hyp;
+            sinphi = std::sqrt(1 - ipow<2>(cosphi));
+        }
+        else
+        {
+            // Exactly along z to within rounding: arbitrary azimuthal angle
+            cosphi = 1;
+            sinphi = 0;
+        }
     }
     else
     {
